@@ -407,6 +407,8 @@ def section_formats():
             "dict-monomials/dense": ({sympy.Integer(1): H0, x: H1, y: H2}, {}),
             "dict-monomials/sympy": ({y: S2, sympy.Integer(1): S0, x: S1}, {}),
             "sympy-matrix": (S0 + x * S1 + y * S2, {"symbols": [x, y]}),
+            "sympy-matrix-immutable": (sympy.ImmutableMatrix(S0 + x * S1 + y * S2), {"symbols": [x, y]}),
+            "list/sympy-immutable": ([sympy.ImmutableMatrix(S0), sympy.ImmutableMatrix(S1), sympy.ImmutableMatrix(S2)], {}),
             "sympy-matrix-analytic": (S0 + sympy.sin(x) * S1 + (sympy.exp(y) - 1) * S2, {"symbols": [x, y]}),
         }
         # a BlockSeries with scalar shape
